@@ -355,7 +355,7 @@ fn hop() -> impl Strategy<Value = RouteHop> {
     (prop_oneof![1u64..4, any::<u64>()], 0u8..5, 0u8..5).prop_map(|(pool, din, dout)| RouteHop { pool, din, dout })
 }
 fn route() -> impl Strategy<Value = Vec<RouteHop>> {
-    proptest::collection::vec(hop(), 1..5)
+    prop_oneof![15 => proptest::collection::vec(hop(), 1..5), 1 => Just(vec![])]
 }
 fn amount() -> impl Strategy<Value = u128> {
     prop_oneof![Just(0u128), Just(1u128), any::<u128>(), Just(u128::MAX), (1u128..1_000_000_000)]
@@ -430,6 +430,9 @@ fn build_candidate(c: &Candidate, allowed: &[Vec<RouteHop>]) -> (Vec<RouteHop>, 
         }
         Candidate::Edit(i, j, f) => {
             let mut r = pick(*i);
+            if r.is_empty() {
+                return (r, true);
+            }
             let j = *j as usize % r.len();
             match f % 3 {
                 0 => r[j].pool = r[j].pool.wrapping_add(1),
